@@ -2,6 +2,7 @@
 mod caches;
 mod config;
 mod framing;
+mod validate;
 
 fn main() {
     let a = vcommon::Args::parse();
@@ -9,6 +10,7 @@ fn main() {
         "framing" => framing::main(&a),
         "config" => config::main(&a),
         "caches" => caches::main(&a),
+        "validate" => validate::main(&a),
         m => {
             eprintln!("unknown mode {m}");
             std::process::exit(2)
